@@ -52,6 +52,78 @@ def fsd(b):
     return os.fsdecode(b)
 
 
+class SkipCase(Exception):
+    """the case needs a private attribute of the library that does not exist (any more)"""
+
+
+class popen_patch:
+    """Substitute process creation from outside: `subprocess.Popen` and, if the library module bound the name
+    at import time, its module global `Popen`.  factory(real_popen) -> replacement callable.  This is the only
+    tie the correspondence needs: the command line is observed where the library hands it to the OS, whatever
+    private helpers assembled it."""
+
+    def __init__(self, factory):
+        self.factory = factory
+
+    def __enter__(self):
+        import subprocess
+        import pyipmi.interfaces.ipmitool as M
+        self.saved = [(subprocess, subprocess.Popen)]
+        if hasattr(M, 'Popen'):
+            self.saved.append((M, M.Popen))
+        for mod, real in self.saved:
+            mod.Popen = self.factory(real)
+        return self
+
+    def __exit__(self, *a):
+        for mod, real in self.saved:
+            mod.Popen = real
+
+
+def fake_popen(out, rc, cap=None):
+    """replacement that starts nothing: records the command, yields `out` and exit status `rc`"""
+    def factory(real):
+        class FakePopen:
+            def __init__(self, cmd, *a, **kw):
+                if cap is not None:
+                    cap.append(cmd)
+                self.args, self.returncode, self.stdout, self.stderr, self.pid = cmd, rc, None, None, 0
+
+            def communicate(self, input=None, timeout=None):
+                return (out, None)
+
+            def wait(self, timeout=None):
+                return rc
+
+            def poll(self):
+                return rc
+
+            def kill(self):
+                pass
+
+            def __enter__(self):
+                return self
+
+            def __exit__(self, *a):
+                return False
+        return FakePopen
+    return factory
+
+
+def recording_popen(cap):
+    """replacement that records the command and then really starts it"""
+    def factory(real):
+        def start(cmd, *a, **kw):
+            cap.append(cmd)
+            return real(cmd, *a, **kw)
+        return start
+    return factory
+
+
+def as_bytes(cmd):
+    return cmd if isinstance(cmd, bytes) else os.fsencode(cmd)
+
+
 # ------------------------------------------------------------------ building the objects
 def mk_iface(inp):
     from pyipmi.interfaces.ipmitool import Ipmitool
@@ -61,7 +133,12 @@ def mk_iface(inp):
     itf = Ipmitool(interface_type=inp['type'], cipher=cipher)
     s = Session()
     s.set_session_type_rmcp(fsd(bytes.fromhex(inp['host'])), inp['port'])
-    s._priv_level = inp['priv']
+    if inp['priv'] in PRIV_NAMES:
+        s.set_priv_level(PRIV_NAMES[inp['priv']])
+    elif hasattr(s, '_priv_level'):
+        s._priv_level = inp['priv']     # fast path for out-of-range levels only (no public way to set them)
+    else:
+        raise SkipCase('no way to configure privilege level %r' % (inp['priv'],))
     a = inp['auth']
     if a[0] == 'password':
         s.set_auth_type_user(fsd(bytes.fromhex(a[1])), fsd(bytes.fromhex(a[2])))
@@ -352,11 +429,9 @@ def run_history(steps):
             e = get(k)
             cap = []
             itf = e['itf']
-            real = Ipmitool._run_ipmitool
-            itf._run_ipmitool = lambda cmd, real=real, cap=cap: (cap.append(cmd), real(cmd))[1]
             reply = bytes.fromhex(step.get('reply', ''))
             outf.write_bytes(fmt_reply(reply))
-            with U.LibraryEnv(out=outf, rc=0) as le:
+            with U.LibraryEnv(out=outf, rc=0) as le, popen_patch(recording_popen(cap)):
                 try:
                     if op == 'ping':
                         r = itf.rmcp_ping()
@@ -366,11 +441,10 @@ def run_history(steps):
                 except Exception as ex:  # noqa
                     r = ex
                 inv = le.invocations()
-            del itf._run_ipmitool
             inp = dict(e['cfg'])
             if op == 'raw':
                 inp.update(target=step['target'], lun=step['lun'], netfn=step['netfn'], raw=step['raw'])
-            recs.append({'i': i, 'op': op, 'inp': inp, 'cmd': os.fsencode(cap[0]) if cap else None,
+            recs.append({'i': i, 'op': op, 'inp': inp, 'cmd': as_bytes(cap[0]) if cap else None,
                          'obs': U.observed(inv), 'n': len(inv), 'result': r, 'reply': reply})
     return recs
 
@@ -503,22 +577,29 @@ def rand_inp(rng, user=None, pw=None, **kw):
 
 
 def py_cmd(inp, ping=False):
-    """the command string the library hands to _run_ipmitool (None = it raised)"""
+    """the command line the library hands to the OS (None = it raised), observed at Popen through the public
+    send_and_receive_raw / rmcp_ping"""
     cap = []
     try:
         itf = mk_iface(inp)
-        itf._run_ipmitool = lambda cmd: (cap.append(cmd), (b'', 0))[1]
-        if ping:
-            itf.rmcp_ping()
-        else:
-            itf.send_and_receive_raw(mk_target(inp['target']), inp['lun'], inp['netfn'], bytes.fromhex(inp['raw']))
+        with popen_patch(fake_popen(b'', 0, cap)):
+            if ping:
+                itf.rmcp_ping()
+            else:
+                itf.send_and_receive_raw(mk_target(inp['target']), inp['lun'], inp['netfn'], bytes.fromhex(inp['raw']))
+    except SkipCase:
+        raise
     except Exception:  # noqa
         return None
-    return os.fsencode(cap[0]) if cap else None
+    return as_bytes(cap[0]) if cap else None
 
 
 def py_parse(out):
+    """optional finer observation (cc and data separately) through _parse_output, which /repo/tests pin;
+    None when the method does not exist - chk_receive (public path) then carries the correspondence alone"""
     from pyipmi.interfaces.ipmitool import Ipmitool
+    if not hasattr(Ipmitool, '_parse_output'):
+        return None
     try:
         cc, rsp = Ipmitool()._parse_output(out)
         return ('ok', cc, None if rsp is None else bytes(rsp))
@@ -527,25 +608,14 @@ def py_parse(out):
 
 
 def py_receive(out, rc):
-    """send_and_receive_raw with the REAL _run_ipmitool; only the process creation (module global Popen) is
-    substituted, so the exit-status rule of _run_ipmitool is exercised too"""
-    import pyipmi.interfaces.ipmitool as M
-
-    class FakePopen:
-        def __init__(self, cmd, shell=False, stdout=None):
-            self.returncode = rc
-
-        def communicate(self):
-            return (out, None)
-    saved = M.Popen
-    M.Popen = FakePopen
+    """public send_and_receive_raw; only the process creation is substituted, so the library's own exit-status
+    rule is exercised too"""
     try:
         itf = mk_iface(std_inp())
-        return ('ok', bytes(itf.send_and_receive_raw(mk_target({'addr': 0x20, 'routing': None}), 0, 6, b'\x01')))
+        with popen_patch(fake_popen(out, rc)):
+            return ('ok', bytes(itf.send_and_receive_raw(mk_target({'addr': 0x20, 'routing': None}), 0, 6, b'\x01')))
     except Exception as e:  # noqa
         return ('err', C.exc_class(e))
-    finally:
-        M.Popen = saved
 
 
 JUNK = ['ab', 'AB', '0x1f', '0X1F', '1_0', '_1', '1_', '1__0', '0x_1', '+1f', '-0', '-1', '100', 'ff', 'fff',
@@ -691,12 +761,18 @@ def run(ctx):
     inps += [rand_inp(rng, user=rand_str(rng, rng.randrange(0, 12)), pw=rand_str(rng, rng.randrange(0, 24)))
              for _ in range(150 if q else 1500)]
     for inp in inps:
-        cmd = py_cmd(inp)
+        try:
+            cmd = py_cmd(inp)
+        except SkipCase:
+            continue
         add('chk_cmd %s %s' % (c_call(inp), C.c_opt(None if cmd is None else C.c_hex(cmd))),
             ('cmd', inp, None if cmd is None else cmd.decode('latin-1')))
         D.add(('cmd', repr(inp)), True, 'builder-' + inp['type'])
     for inp in inps[::3]:
-        cmd = py_cmd(inp, ping=True)
+        try:
+            cmd = py_cmd(inp, ping=True)
+        except SkipCase:
+            continue
         add('chk_ping %s %s' % (c_config(inp), C.c_opt(None if cmd is None else C.c_hex(cmd))),
             ('ping', inp, None if cmd is None else cmd.decode('latin-1')))
         D.add(('ping', repr(inp)), True, 'builder-ping')
@@ -708,9 +784,10 @@ def run(ctx):
     outs += [rand_output(rng) for _ in range(400 if q else 4000)]
     for out in outs:
         r = py_parse(out)
-        add('chk_parse %s %s' % (C.c_hex(out), c_res(r, lambda r: '(%s, %s)' % (
-            C.c_opt(None if r[1] is None else C.c_N(r[1])), C.c_opt(None if r[2] is None else C.c_hex(r[2]))))),
-            ('parse', out.decode('latin-1'), repr(r)))
+        if r is not None:
+            add('chk_parse %s %s' % (C.c_hex(out), c_res(r, lambda r: '(%s, %s)' % (
+                C.c_opt(None if r[1] is None else C.c_N(r[1])), C.c_opt(None if r[2] is None else C.c_hex(r[2]))))),
+                ('parse', out.decode('latin-1'), repr(r)))
         rc = rng.choice([0, 0, 1, 1, 127, 2])
         r2 = py_receive(out, rc)
         add('chk_receive %s %d %s' % (C.c_hex(out), rc, c_res(r2, lambda r: C.c_hex(r[1]))),
